@@ -301,5 +301,33 @@ func runC40(c *eng.Ctx) {
 			f.Has("R4", eng.CallNamed(m), 1)
 		}
 	}
+	// ---- R5 what is sent is what the receiver decodes: the 2.0 wire types, by field name ----
+	{
+		const (
+			H   = "model/histogram:Histogram"
+			FH  = "model/histogram:FloatHistogram"
+			W   = "prompb/io/prometheus/write/v2:"
+			WH  = W + "Histogram"
+			V1  = "prompb:"
+			V1H = V1 + "Histogram"
+		)
+		c.TransfersAll("R5", W+"FromIntHistogram", WH, H, 1, nil)
+		c.TransfersAll("R5", W+"FromFloatHistogram", WH, FH, 1, nil)
+		c.RoundTripFields("R5", W+"FromIntHistogram", WH+".ToIntHistogram", H, WH, 0, nil)
+		c.RoundTripFields("R5", W+"FromFloatHistogram", WH+".ToFloatHistogram", FH, WH, 0, nil)
+		c.RoundTripFieldsX("R5", W+"FromIntHistogram", H, WH+".ToFloatHistogram", FH, WH, 1, nil)
+		c.RoundTripFields("R5", W+"spansToSpansProto", W+"spansProtoToSpans", "model/histogram:Span", W+"BucketSpan", 0, nil)
+		for _, fn := range []string{"FromIntHistogram", "FromFloatHistogram"} {
+			f := c.Fn(W + fn)
+			fms := f.FieldMaps(WH, H)
+			ok := len(fms) == 1 && strings.Join(fms[0].Reads["Timestamp"], ",") == "$timestamp" && strings.Join(fms[0].Reads["StartTimestamp"], ",") == "$st"
+			c.Check("R5", W+fn, "the wire timestamp and start timestamp of "+fn+" are its parameters of the same meaning", ok, p.Pos(f.Body.Pos()), "")
+		}
+		c.InverseSwitches("R5", W+"FromMetadataType", "github.com/prometheus/common/model:MetricType", W+"TimeSeries.ToMetadata", W+"Metadata_MetricType",
+			map[string]string{"MetricTypeUnknown": "sent as UNSPECIFIED, decoded as unknown (the default of both switches)", "Metadata_METRIC_TYPE_UNSPECIFIED": "the default of both switches"})
+		// 1.0 wire histograms (also used by remote read, checked there as C42.R2) are re-checked here for the write path
+		c.RoundTripFields("R5", V1+"FromIntHistogram", V1H+".ToIntHistogram", H, V1H, 0, nil)
+		c.RoundTripFields("R5", V1+"FromFloatHistogram", V1H+".ToFloatHistogram", FH, V1H, 0, nil)
+	}
 	_ = fmt.Sprint
 }
